@@ -149,4 +149,19 @@ theorem C19_originLoop_translated (ext : Ext) (credentialed pnaAny tolInsecure t
 
 #print axioms C19_originLoop_translated
 
+
+/-- **C19 (translated orchestration).** The order in which `newInternalConfig` runs its validators and appends their errors
+— translated from /repo's config.go on every run as a function of the validators' results — is the order of `Validate.allErrs`
+(status, PNA modes, origins, methods, request headers, max-age, response headers): every validator runs whatever the earlier
+ones returned, nothing stops at the first problem.  The five copies `icfg.f = cfg.F` all happen before `validateOrigins`
+runs, so the validators see the flags they read. -/
+theorem C19_orchestration_translated (ext : Ext) (cfg : Config) :
+    Gen.GoSrc.newInternalConfigOrder cfg.pna cfg.pnaNoCors (Validate.statusErrs cfg).head? (Validate.originErrs ext cfg).head?
+        (Validate.methodErrs cfg).head? (Validate.reqHdrErrs cfg).head? (Validate.maxAgeErrs cfg).head? (Validate.resHdrErrs cfg).head? =
+      Validate.allErrs ext cfg ∧
+    (Gen.GoSrc.newInternalConfigCopies.length = 5 ∧ ∀ c ∈ Gen.GoSrc.newInternalConfigCopies, c.take 2 = [49, 58]) :=
+  ⟨Translated.newInternalConfigOrder_eq ext cfg, Translated.newInternalConfigCopies_before_origins⟩
+
+#print axioms C19_orchestration_translated
+
 end Cors
